@@ -14,6 +14,7 @@ import (
 	"os/exec"
 	"path/filepath"
 	"runtime"
+	"runtime/debug"
 	"sort"
 	"strconv"
 	"strings"
@@ -415,7 +416,7 @@ func cmdCheck(args []string) int {
 
 	var pure *PureResult
 	if p.Pure != nil && os.Getenv("VERIF_ONLY") == "" {
-		pure = p.Pure(tier)
+		pure = runPure(p, id, tier)
 		if !pure.Exhaustive {
 			total.Exhaustive = false
 		}
@@ -580,4 +581,29 @@ func tail(s string, n int) string {
 		return s[len(s)-n:]
 	}
 	return s
+}
+
+// runPure runs the enumeration kernel of a property; a panic of the code under test inside it is a violation
+// (with the panic value and the innermost frames as its message), not a broken check.
+func runPure(p *Property, id, tier string) (res *PureResult) {
+	defer func() {
+		if r := recover(); r != nil {
+			var frames []string
+			for _, l := range strings.Split(string(debug.Stack()), "\n") {
+				if i := strings.Index(l, "github.com/Trendyol/go-dcp/"); i >= 0 && !strings.HasPrefix(l, "\t") {
+					f := l[i+len("github.com/Trendyol/go-dcp/"):]
+					if j := strings.Index(f, "("); j > 0 && !strings.HasPrefix(f[j:], "(*") {
+						f = f[:j]
+					}
+					frames = append(frames, f)
+				}
+				if len(frames) == 3 {
+					break
+				}
+			}
+			res = &PureResult{Exhaustive: false}
+			res.Violations = append(res.Violations, pureViolation(id, fmt.Sprintf("the enumeration was stopped by a panic of the code under test: %v (at %s)", r, strings.Join(frames, " <- "))))
+		}
+	}()
+	return p.Pure(tier)
 }
